@@ -1137,6 +1137,10 @@ impl C14 {
                 99_999_999_999_999_995,
                 (1 << 63) - 2,
                 u64::MAX - 100_000,
+                u64::MAX - 2,
+                4_090,
+                5_000,
+                65_530,
             ])
         } else {
             0
